@@ -1367,6 +1367,27 @@ ATTR2_TEMPLATES = [
     "Type.varint.real == 5", "Type.varint.denominator == 1", "Type.varint.real > 6", "Type.varint.imag == 0", "Type.varint.real == 6",
     "5 == Type.varint.real", "Type.varint == 5", "Type.string == 'x'", "'x' in Type.string", "1 < Type.varint.real < 6",
 ]
+# the VALUE (not only the truth value) of every helper's result: compared with True / False / None / 0 / 1, used in
+# arithmetic, for the match and the no-match case
+def helper_value_exprs():
+    calls = ["field_regex(r, ['s'], 'zzz')", "field_regex(r, ['s'], '^a')", "field_regex(r, ['zz'], '.')",
+             "field_equals(r, ['s'], ['zzz'])", "field_equals(r, ['s'], ['ABC'])", "field_equals(r, ['zz'], ['x'])",
+             "field_contains(r, ['s'], ['zzz'])", "field_contains(r, ['s'], ['b'])", "field_contains(r, ['s'], ['b'], word_boundary=True)",
+             "field_contains(r, ['s'], ['abc'], word_boundary=True)", "has_field(r, 's')", "has_field(r, 'zz')",
+             "lower(r.u)", "upper(r.n)", "lower(r.s)", "name(r)", "name(r.n)"]
+    out = []
+    for c in calls:
+        for lit in ("True", "False", "None", "0", "1"):
+            out += ["(%s == %s)" % (c, lit), "(%s != %s)" % (c, lit)]
+        out += ["(%s in [False])" % c, "(%s in [True])" % c, "(%s in [None])" % c, "(%s not in [False, None])" % c,
+                "(%s is None)" % c, "(%s is not None)" % c]
+        if c.startswith(("field_", "has_field")):
+            out += ["((%s + 1) == 1)" % c, "((%s + 1) == 2)" % c, "((%s * 2) == 0)" % c, "((%s | False) == False)" % c,
+                    "((%s & True) == True)" % c]
+    out += ["('test/c07' in names(r)) == True", "(names(r) == None)", "(names(r) != None)", "(names(r.n) == ['UnknownRecord'])"]
+    return out
+
+
 MULTI_TEMPLATES = [
     "10 < Type.varint < 100", "1000 < Type.varint < 10000", "10 < Type.varint < 60 < Type.varint", "1 < Type.varint < 10 < Type.varint < 100",
     "'a' <= Type.string <= 'z'", "'n' < Type.string < 'zzz'", "'a' <= Type.string <= 'c'", "Type.varint > 1000 > Type.varint",
@@ -1677,7 +1698,7 @@ def differential(ctx, kf, budget_pairs, maxdepth, rnd, with_coq, exhaustive=Fals
                 yield ("on", ri), t
         for t in MULTI_TEMPLATES:
             yield "multi", t
-        for t in HELPER_NONE_TEMPLATES + KIND_TEMPLATES:
+        for t in HELPER_NONE_TEMPLATES + KIND_TEMPLATES + helper_value_exprs():
             yield "helpernone", t
         for t in ATTR_TEMPLATES:
             yield "attrs", t
@@ -1730,7 +1751,7 @@ def differential(ctx, kf, budget_pairs, maxdepth, rnd, with_coq, exhaustive=Fals
         elif kind == "multi":
             picks = d7_idx[:4]
         elif kind == "helpernone":
-            picks = d1_idx[:4]
+            picks = d1_idx[:2]
         elif kind == "attrs":
             picks = [i for i, r in enumerate(recs) if r["which"] == "D8"]
         elif kind == "attrs2":
